@@ -35,6 +35,7 @@ QUICK = [
     _k('scaled_fixed_contract_norm_below_one', mode='fixed', base='contract', T=2, norm=0.25),
     _k('scaled_free_storage_norm_below_one', mode='free', base='storage', T=2, norm=0.5),
     _k('scaled_fixed_storage_discounted', mode='fixed', base='storage', T=3, freq='d', unit='h', wacc=True),
+    _k('scaled_fixed_storage_discounted_base_only', mode='fixed', base='storage', T=3, freq='d', unit='h', wacc='base'),
     _k('scaled_free_contract_discounted', mode='free', base='contract', T=2, freq='d', unit='d', wacc=True),
     _k('scaled_cost_sample_own_window', mode='costs', shape='scaled', kw=dict(T=4, base='transport', win=(1, 3))),
     _k('scaled_fixed_plant', mode='fixed', base='plant', T=3),
@@ -144,16 +145,18 @@ def build_scaled(D, mode, base, T, win=None, unit='h', freq='h', sigma=None, wra
     b1 = mk_base(D, base, T, tg, nA, nB, None, concrete, win, 'base')
     ww = win if wrap_win == 'same' else wrap_win
     s_, e_ = shapes.window(tg, ww) if ww is not None else (None, None)
-    sa = eao.assets.ScaledAsset(name='sc', base_asset=b1, min_scale=mn, max_scale=mx, norm_scale=norm, fix_costs=fixc, start=s_, end=e_,
-                                **(dict(wacc=D('wacc', lo=0)) if wacc else {}))
     if wacc:
-        b1.wacc = sa.wacc      # the cash flows of the base asset are discounted; the fixed costs are s x rate x active duration (as the property states)
+        # the BASE asset carries the discount rate (its cash flows are discounted); the fixed costs are s x rate x active duration as the property
+        # states.  wacc == 'base': the wrapper is created without a rate of its own (documented default 0) -- the base asset keeps its rate
+        b1.wacc = D('wacc', lo=0)
+    sa = eao.assets.ScaledAsset(name='sc', base_asset=b1, min_scale=mn, max_scale=mx, norm_scale=norm, fix_costs=fixc, start=s_, end=e_,
+                                **(dict(wacc=b1.wacc) if wacc and wacc != 'base' else {}))
     pf_s = eao.portfolio.Portfolio([sa] + others())
     pf_b = None
     if f is not None:
         b2 = mk_base(D, base, T, tg, nA, nB, f, concrete, win, 'sc')
         if wacc:
-            b2.wacc = sa.wacc
+            b2.wacc = D('wacc', lo=0)
         pf_b = eao.portfolio.Portfolio([b2] + others())
     return pf_s, pf_b, tg, prices, fixc, (mn, mx)
 
